@@ -281,4 +281,55 @@ example : covered (runOnRange [] (boundsOf [[[0x61]]]).1 (boundsOf [[[0x61]]]).2
 example : covered (runOnRange [[0x62], [0x6d]] (boundsOf [[[0x61], [0x63], [0x6d]]]).1 (boundsOf [[[0x61], [0x63], [0x6d]]]).2) [0x6d] = true := by
   decide
 
+/-! ## at the store: commit or rollback drives every flushed lock to the outcome of the primary -/
+
+/-- for EVERY region layout, every sequence of flushed batches and every store state that satisfies the store invariant:
+    after the range task of commit (`C` = commit ts) or rollback (`C = 0`) has run — one region-wide ResolveLock(T, C)
+    per region visited by RunOnRange on [pipelinedStart, pipelinedEnd) — no flushed key is locked by `T` any more, and
+    its entry is exactly what ResolveLock(T, C) makes of it (`rk`) -/
+theorem resolve_drives_flushed_locks (ms : Mvcc.Store) (hs : Mvcc.SInv ms) (T C : Nat) (hC : C = 0 ∨ T < C)
+    (splits : List Bytes) (hsp : ∀ h ∈ splits, h ≠ []) (bs : List (List Bytes)) (hv : validBatches bs)
+    (k : Bytes) (hk : k ∈ bs.flatten) :
+    ¬ lockedBy (resolveRegionsStore ms (runOnRange splits (boundsOf bs).1 (boundsOf bs).2) T C) T k ∧
+    Mvcc.getEntry (resolveRegionsStore ms (runOnRange splits (boundsOf bs).1 (boundsOf bs).2) T C).kv k =
+      rk T C k (Mvcc.getEntry ms.kv k) := by
+  have hcov := resolved_regions_cover_flushed splits bs hv k hk
+  have hne : ∀ r ∈ runOnRange splits (boundsOf bs).1 (boundsOf bs).2, ∀ h, r.2 = some h → h ≠ [] :=
+    fun r hr h hh => hsp h (runOnRange_ends_in_splits splits _ _ r hr h hh)
+  have he := getEntry_resolveRegions T C hC k _ ms hs hne
+  rw [hcov] at he
+  simp only [if_true] at he
+  refine ⟨?_, he⟩
+  rintro ⟨l, hl, hT⟩
+  rw [he] at hl
+  exact rk_unlocks T C k _ l hl hT
+
+/-- the single outcome: a flushed key that `T` still locks (with the put / delete / lock it flushed) ends with `T`'s
+    commit record at `C` carrying the flushed value when the primary was committed, with `T`'s rollback marker when it
+    was rolled back -/
+theorem resolve_outcome_is_primarys (ms : Mvcc.Store) (hs : Mvcc.SInv ms) (T C : Nat) (hC : C = 0 ∨ T < C)
+    (splits : List Bytes) (hsp : ∀ h ∈ splits, h ≠ []) (bs : List (List Bytes)) (hv : validBatches bs)
+    (k : Bytes) (hk : k ∈ bs.flatten) (l : Mvcc.Lock) (hl : (Mvcc.getEntry ms.kv k).lock = some l)
+    (hT : l.startTS = T) (hop : l.op ≠ .pessimisticLock) :
+    (0 < C → ∃ w ∈ (Mvcc.getEntry (resolveRegionsStore ms (runOnRange splits (boundsOf bs).1 (boundsOf bs).2) T C).kv k).writes,
+      w.startTS = T ∧ w.commitTS = C ∧ w.vt ≠ .rollback ∧ w.value = l.value) ∧
+    (C = 0 → ∃ w ∈ (Mvcc.getEntry (resolveRegionsStore ms (runOnRange splits (boundsOf bs).1 (boundsOf bs).2) T C).kv k).writes,
+      w.startTS = T ∧ w.vt = .rollback) := by
+  rw [(resolve_drives_flushed_locks ms hs T C hC splits hsp bs hv k hk).2]
+  exact rk_record T C k _ l hl hT hop
+
+/-- and the outcome is final: no later store command can commit, roll back or re-lock that key for `T`
+    (Proofs/MvccTemporal.lean, `KStep.final`, over the 8-label per-key transition system every store command refines) -/
+theorem resolved_key_is_final (e e' : Mvcc.Entry) (lab : Mvcc.KLabel) (T : Nat) (hstep : Mvcc.KStep e lab e')
+    (hi : Mvcc.EInv e) (hrec : ∃ w ∈ e.writes, w.startTS = T) : lab.txn ≠ some T :=
+  hstep.final hi hrec
+
+def demoMutation : Mvcc.Mutation := { op := .put, key := [0x61], value := [1] }
+def demoReq : Mvcc.PrewriteReq := { mutations := [demoMutation], primary := [0x61], startTS := 5, ttl := 10 }
+
+/-- non-vacuity: a store that satisfies the store invariant and holds a flushed (put) lock of transaction 5 -/
+example : Mvcc.SInv ((Mvcc.Cmd.prewrite demoReq).run {}) ∧
+    ((Mvcc.getEntry ((Mvcc.Cmd.prewrite demoReq).run {}).kv [0x61]).lock.map fun l => (l.startTS, l.op)) = some (5, .put) :=
+  ⟨Mvcc.SInv_run _ _ Mvcc.SInv.empty trivial, by decide⟩
+
 end CGV.Props.C16
